@@ -377,4 +377,75 @@ pub fn run(ctx: &mut Ctx) {
         ctx.stat(&format!("sessions_{}", proto));
         ctx.emit(&q, &ans);
     }
+
+    // ---- the real direct forwarder behind the dispatch: which refusal code a destination gets ------------------
+    // (outbound connects are recorded and failed by the door's stub, so nothing leaves the machine)
+    {
+        use trusttunnel::verif::hooks;
+        let literals: Vec<std::net::SocketAddr> = [
+            "127.0.0.1:80", "127.0.0.2:443", "127.255.255.254:8080", "[::1]:443", "10.0.0.1:80", "192.168.1.1:80", "169.254.1.1:80",
+            "100.64.0.1:80", "100.127.255.254:80", "[fe80::1]:80", "[fc00::1]:80", "[2001:db8::1]:80", "[::ffff:127.0.0.1]:80",
+            "[::ffff:127.9.9.9]:80", "[::ffff:10.0.0.1]:80", "8.8.8.8:53", "[2606:4700:4700::1111]:443", "0.0.0.0:80", "224.0.0.1:80",
+        ]
+        .iter()
+        .map(|x| x.parse().unwrap())
+        .collect();
+        let names: Vec<(&str, Vec<&str>)> = vec![
+            ("lo.test", vec!["127.0.0.5"]),
+            ("lo6.test", vec!["::1"]),
+            ("priv.test", vec!["10.1.1.1"]),
+            ("mixed.test", vec!["10.1.1.1", "127.0.0.1"]),
+            ("mixed2.test", vec!["127.0.0.1", "10.1.1.1"]),
+            ("glob.test", vec!["8.8.8.8"]),
+            ("privthenglob.test", vec!["192.168.0.1", "1.1.1.1"]),
+            ("v6only.test", vec!["2606:4700:4700::1111"]),
+            ("none.test", vec![]),
+        ];
+        for allow in [false, true] {
+            for v6ok in [true, false] {
+                let settings = Settings::builder()
+                    .listen_address(("127.0.0.1", 1))
+                    .unwrap()
+                    .listen_protocols(ListenProtocolSettings { http1: Some(Http1Settings::builder().build()), http2: Some(Http2Settings::builder().build()), quic: None })
+                    .allow_private_network_connections(allow)
+                    .ipv6_available(v6ok)
+                    .build()
+                    .unwrap();
+                let hosts = TlsHostsSettings::builder()
+                    .main_hosts(vec![TlsHostInfo { hostname: "localhost".into(), cert_chain_path: FIXTURE_PEM.into(), private_key_path: FIXTURE_PEM.into(), allowed_sni: vec![] }])
+                    .build()
+                    .unwrap();
+                let core = Core::new(settings, None, hosts, Shutdown::new()).unwrap();
+                let mut targets: Vec<(String, String)> = vec![];
+                for a in &literals {
+                    targets.push((a.to_string(), format!("addr {} {}", ip_tokens(&a.ip()), a.port())));
+                }
+                for (n, ips) in &names {
+                    let toks: Vec<String> = ips.iter().map(|i| format!("{} 443", ip_tokens(&i.parse().unwrap()))).collect();
+                    targets.push((format!("{}:443", n), format!("host {} {}", ips.len(), toks.join(" ")).trim_end().to_string()));
+                }
+                for (authority, qtail) in targets {
+                    hooks::reset();
+                    {
+                        let mut st = hooks::STATE.lock().unwrap();
+                        st.stub_tcp_connect_errno = Some(libc::ECONNREFUSED);
+                        for (n, ips) in &names {
+                            st.resolver.insert(n.to_string(), Ok(ips.iter().map(|i| std::net::SocketAddr::new(i.parse().unwrap(), 443)).collect()));
+                        }
+                    }
+                    let raw = format!("CONNECT {} HTTP/1.1\r\nHost: {}\r\n\r\n", authority, authority).into_bytes();
+                    let rt = tokio::runtime::Builder::new_current_thread().enable_all().start_paused(true).build().unwrap();
+                    let out = rt.block_on(h1_session(&core, "localhost", None, raw, 2_000));
+                    let (status, headers, _) = parse_resp_h1(&out);
+                    let host_ok = headers.get("x-adguard-vpn-error").map(|v| *v == authority).unwrap_or(true);
+                    if !host_ok {
+                        ctx.oracle_failure("dns_error_host", &format!("CONNECT {}: X-Adguard-Vpn-Error names {:?}", authority, headers.get("x-adguard-vpn-error")));
+                    }
+                    ctx.emit(&format!("c10 real {} {} {}", allow as u8, v6ok as u8, qtail), &resp_tok(status, &headers));
+                    ctx.stat("real_forwarder_refusal_codes");
+                }
+                hooks::reset();
+            }
+        }
+    }
 }
